@@ -69,6 +69,21 @@ def make_cf(cfg, name="c05"):
     return encfeat.make_cf(name, **kw)
 
 
+# Boundary configurations outside the product: unequal low-delay slice sizes on a 2-D slice grid,
+# slices whose luma length crosses the 8-bit length-field boundary while chroma does not, big HQ slices.
+EXTRAS = [
+    dict(profile=0, slices_x=3, slices_y=2, picture_bytes=100),
+    dict(profile=0, slices_x=2, slices_y=3, picture_bytes=61, frame_height=8),
+    dict(profile=0, slices_x=4, slices_y=3, picture_bytes=131, frame_width=16, frame_height=8, dwt_depth=1),
+    dict(profile=0, slices_x=3, slices_y=2, picture_bytes=7),
+    dict(lossless=True, slices_x=1, slices_y=1, frame_width=32, frame_height=16, color_diff_format_index=1),
+    dict(lossless=True, slices_x=1, slices_y=1, frame_width=32, frame_height=16, color_diff_format_index=2, dwt_depth=2),
+    dict(lossless=True, slices_x=1, slices_y=1, frame_width=32, frame_height=8, color_diff_format_index=0, dwt_depth=0),
+    dict(lossless=False, slices_x=1, slices_y=1, frame_width=32, frame_height=16, color_diff_format_index=1, picture_bytes=1500),
+    dict(lossless=False, slices_x=2, slices_y=2, frame_width=16, frame_height=16, picture_bytes=1033, fragment_slice_count=3),
+]
+
+
 def swap_pictures():
     from vc2_conformance_data import NATURAL_PICTURES_FILENAMES as NP
 
@@ -101,7 +116,7 @@ def check_config(cfg):
 
     logging.disable(logging.WARNING)
     swap_pictures()
-    cf = make_cf(cfg)
+    cf = encfeat.make_cf("c05x", **cfg["extra"]) if "extra" in cfg else make_cf(cfg)
     vp, pcm = cf["video_parameters"], cf["picture_coding_mode"]
     problems = []
     names = set()
@@ -116,18 +131,33 @@ def check_config(cfg):
         return ["plain static_sprite encoding not accepted: %s" % plain_sprite.label], 0, families
     plain = [strip(p[0]) for p in plain_sprite.pictures]
     n = 0
-    gen = REG.generate_test_cases(cf)
-    while True:
-        try:
-            tc = next(gen)
-        except StopIteration:
-            break
-        except UnsatisfiableCodecFeaturesError as e:
-            families.add("refused:" + type(e).__name__)
-            break
-        except Exception as e:  # noqa
-            problems.append("test case generator raised %s: %s" % (type(e).__name__, e))
-            break
+    known = []
+
+    def all_cases():
+        """Every registered generator run to exhaustion; one generator failing does not hide the others."""
+        from vc2_conformance.test_cases import normalise_test_case_generator
+
+        for g in REG.iter_registered_functions():
+            it = normalise_test_case_generator(g, cf)
+            while True:
+                try:
+                    yield next(it)
+                except StopIteration:
+                    break
+                except UnsatisfiableCodecFeaturesError as e:
+                    families.add("refused:" + type(e).__name__)
+                    break
+                except Exception as e:  # noqa
+                    import traceback as _tb
+
+                    last = _tb.extract_tb(e.__traceback__)[-1]
+                    if g.__name__ == "signal_range" and cf["dwt_depth"] == 0 and cf["dwt_depth_ho"] == 0 and isinstance(e, KeyError) and "vc2_bit_widths" in last.filename:
+                        known.append(("F11", g.__name__))
+                    else:
+                        problems.append("test case generator %s raised %s: %s" % (g.__name__, type(e).__name__, e))
+                    break
+
+    for tc in all_cases():
         n += 1
         fam = tc.case_name
         families.add(fam)
@@ -137,7 +167,12 @@ def check_config(cfg):
         try:
             v = decode(tc.value)
         except Exception as e:  # noqa
-            problems.append("%s: could not be serialised: %s: %s" % (tc.name, type(e).__name__, e))
+            n_slices = cf["slices_x"] * cf["slices_y"]
+            one_byte_slice = int(cf["profile"]) == 0 and cf["picture_bytes"] is not None and cf["picture_bytes"] // n_slices < 2
+            if one_byte_slice and fam == "slice_padding_data" and (tc.subcase_name or "").startswith("Y_") and type(e).__name__ == "OutOfRangeError":
+                known.append(("F10", tc.name))
+            else:
+                problems.append("%s: could not be serialised: %s: %s" % (tc.name, type(e).__name__, e))
             continue
         if v.kind != "accept":
             problems.append("%s: validator %s: %s" % (tc.name, v.label, str(v.exc)[:160]))
@@ -171,6 +206,8 @@ def check_config(cfg):
             got = [p[0]["pic_num"] for p in v.pictures]
             if want is None or got != want[: len(got)] or len(got) != 8:
                 problems.append("%s: picture numbers %r, documented %r" % (tc.name, got, want))
+    for k in known:
+        families.add("known:" + k[0])
     return problems, n, families
 
 
@@ -188,13 +225,15 @@ def _shard(arg):
     tier, seed, w, n = arg
     t = Tally()
     idx = selected_indices(tier, seed)
-    for i in idx[w::n]:
-        cfg = config_at(i)
+    for i in (idx + [-(k + 1) for k in range(len(EXTRAS))])[w::n]:
+        cfg = config_at(i) if i >= 0 else {"extra": EXTRAS[-i - 1]}
         problems, ncases, fams = check_config(cfg)
         t.count("configs")
         t.count("test_cases", ncases)
         for f in fams:
             t.outcome("families", f)
+            if f.startswith("known:"):
+                t.known_finding(f[6:], {"index": i, "config": cfg})
         if problems:
             t.violation("%r: %s" % (cfg, problems[0]), {"index": i, "config": cfg, "n_problems": len(problems)})
         elif ncases:
@@ -207,7 +246,7 @@ def run(ctx):
     n = 64
     total = pool.map_shards(_shard, [(ctx.tier, ctx.seed, w, n) for w in range(n)])
     idx = selected_indices(ctx.tier, ctx.seed)
-    if total.n["configs"] != len(idx):
+    if total.n["configs"] != len(idx) + len(EXTRAS):
         total.error("evaluated %d of %d" % (total.n["configs"], len(idx)))
     if total.ndistinct("ok_configs") * 2 < len(idx) and not total.violation_count:
         total.error("vacuous: %d of %d configurations produced test cases" % (total.ndistinct("ok_configs"), len(idx)))
@@ -216,10 +255,11 @@ def run(ctx):
         "distinct_nontrivial": total.ndistinct("ok_configs"),
         "rule": "for each selected configuration every generator of DECODER_TEST_CASE_GENERATOR_REGISTRY is run to exhaustion; each test case is serialised, validated, decoded and judged by its family's oracle; non-trivial = distinct configurations all of whose test cases passed",
         "exhaustive": ctx.tier == "thorough",
-        "bounds": {"full_product": n_configs(), "configurations_run": len(idx), "selection": "full product" if ctx.tier == "thorough" else "core (every 176th) + stratum (index = seed mod 141, step 141)", "domains": {k: len(v) for k, v in DOMAINS}},
+        "bounds": {"full_product": n_configs(), "configurations_run": len(idx), "selection": "full product" if ctx.tier == "thorough" else "core (every 176th) + stratum (index = seed mod 141, step 141)", "domains": {k: len(v) for k, v in DOMAINS}, "extra_boundary_configurations": len(EXTRAS)},
     }
     return total, cov
 
 
 def replay_case(case):
-    return check_config(config_at(case["index"]))[0]
+    i = case["index"]
+    return check_config(config_at(i) if i >= 0 else {"extra": EXTRAS[-i - 1]})[0]
